@@ -8,9 +8,14 @@
 //!   hands to `decode` (must lie inside the message's data and inside the
 //!   control buffer);
 //! * hostile control buffers: well-formed chains with foreign lengths /
-//!   truncated last message (what a kernel can deliver) and malformed chains
-//!   (`cmsg_len` < header, > buffer, huge); iteration is compared with a
-//!   reference walker and bounded in steps.
+//!   truncated last message (what a kernel can deliver, class `valid-chain`):
+//!   iteration is compared with a reference walker and bounded in steps.
+//!   Malformed chains (`cmsg_len` < header, > buffer, huge; class
+//!   `invalid-chain`) violate the contract of the unsafe `AncillaryIter::new`
+//!   and are outside the property: they are run for observation and only
+//!   counted (`obs_invalid_chain:*`). Lengths that abort a debug process
+//!   (>= usize::MAX-7: libc's CMSG_ALIGN overflows in an extern "C" fn;
+//!   >= 2^63 with data(): slice precondition) are not generated.
 
 use std::{
     alloc::{Layout, alloc, dealloc},
@@ -400,8 +405,6 @@ pub enum DataMode {
     All,
     /// call `data()` only when the slice it builds stays inside the allocation
     Safe,
-    /// call `data()` whatever `cmsg_len` says (may abort a debug build)
-    Force,
     None,
 }
 
@@ -476,12 +479,12 @@ fn iterate(
             ));
             return out;
         }
-        // what the data slice will be: [off+HDR, off+HDR+cmsg_len)
+        // what the data slice should be: [off+HDR, off+max(cmsg_len, HDR)); keep a header's worth of margin
+        // so that a regression to "cmsg_len bytes from the data pointer" stays physical as well
         let slice_end = (off + HDR).checked_add(l);
         let in_alloc = slice_end.is_some_and(|e| e <= physical);
         let call = match opts.data {
             DataMode::All => l <= isize::MAX as usize,
-            DataMode::Force => true,
             DataMode::Safe => in_alloc,
             DataMode::None => false,
         };
@@ -715,7 +718,8 @@ fn do_build_case(ctx: &mut Ctx, c: &BuildCase, opts: Opts) {
     match run_build(c, opts, &mut counters) {
         Ok((viols, class)) => {
             // the signature says what was exercised; verdicts are recorded separately
-            ctx.rep.eval(if c.msgs.is_empty() { None } else { Some(format!("anc/{bufname}/{}/{class}{}", kinds.join("+"), if c.reuse { "/reuse" } else { "" })) });
+            let last = kinds.last().cloned().unwrap_or_default();
+            ctx.rep.eval(if c.msgs.is_empty() { None } else { Some(format!("anc/{bufname}/n{}/last={last}/{class}{}", kinds.len(), if c.reuse { "/reuse" } else { "" })) });
             if ctx.rep.want_sample() && c.msgs.len() >= 2 && class == "some-fit" {
                 ctx.rep.sample(c.json());
             }
@@ -859,15 +863,22 @@ fn hostile_one(ctx: &mut Ctx, bytes: &[u8], kinds: &[Kind], class: &str, sub: &s
     match r {
         Ok(viols) => {
             let w = ref_walk(bytes);
-            let k: Vec<String> = kinds.iter().take(w.len()).map(|k| k.name()).collect();
-            ctx.rep.eval(Some(format!("anc-hostile/{class}/{sub}/msgs{}/{}", w.len().min(4), k.join("+"))));
+            let k = kinds.first().map(|k| k.name()).unwrap_or_default();
+            ctx.rep.eval(Some(format!("anc-hostile/{class}/{sub}/msgs{}/first-as={k}", w.len().min(4))));
             for x in viols {
-                ctx.rep.violation(&x.sig, &x.what, replay.clone());
+                if class == "invalid-chain" {
+                    // malformed cmsg_len: outside the contract of the unsafe AncillaryIter::new and
+                    // outside the property; observed and counted, never a verdict
+                    ctx.rep.count(&format!("obs_invalid_chain:{}", x.sig.split('/').nth(1).unwrap_or("?")), 1);
+                } else {
+                    ctx.rep.violation(&x.sig, &x.what, replay.clone());
+                }
             }
         }
         Err(p) => {
             ctx.rep.eval(None);
             match p.origin() {
+                _ if class == "invalid-chain" => ctx.rep.count("obs_invalid_chain:panic", 1),
                 panics::Origin::Repo(loc) => ctx.rep.violation(&format!("C13/{}/ancillary/{class}", p.sig()), &format!("panic under compio at {loc}: {} ({}:{})", p.message, p.file, p.line), replay),
                 o => ctx.rep.inconclusive(&format!("harness/foreign panic {o:?}: {}", p.message.chars().take(120).collect::<String>())),
             }
@@ -898,7 +909,7 @@ pub fn part_hostile(ctx: &mut Ctx, args: &Args) {
     for (name, bad) in BAD_LENS {
         for pos in 0..2 {
             for tail in [0usize, 8, 24] {
-                if !ctx.mine() {
+                if !ctx.mine() || ctx.rep.out_of_time() {
                     continue;
                 }
                 let mut bytes = Vec::new();
@@ -980,30 +991,6 @@ pub fn part_hostile(ctx: &mut Ctx, args: &Args) {
         };
         hostile_one(ctx, &bytes, &kinds, class, &sub, opts);
     }
-}
-
-/// Inputs that can take the whole process down in a debug build (so they
-/// cannot share a process with anything else). `case` 0: `cmsg_len` = 2^63 and
-/// `data()` (`slice::from_raw_parts` precondition check aborts); `case` 1 / 2:
-/// `cmsg_len` = usize::MAX / usize::MAX-7 (the `CMSG_ALIGN` addition overflows
-/// inside libc's `extern "C"` `CMSG_NXTHDR`: non-unwinding panic with overflow
-/// checks, wrap-around and possibly an endless iteration without).
-///
-/// The signature the crash gets is announced on stderr beforehand
-/// (`@@ABORT-VIOLATION@@`, read by the check driver only if the process dies).
-pub fn part_huge(ctx: &mut Ctx, case: u64) {
-    let opts = Opts { data: DataMode::Force, slack: 96, bufs: 0 };
-    let (name, l) = match case % 3 {
-        0 => ("len-2^63", 1usize << 63),
-        1 => ("len-usize-max", usize::MAX),
-        _ => ("len-usize-max-7", usize::MAX - 7),
-    };
-    let mut bytes = raw_msg(l, 1, 2, &[7; 8], 24);
-    bytes.extend(raw_msg(clen(4), 1, 2, &[1, 2, 3, 4], space(4)));
-    eprintln!(
-        "@@ABORT-VIOLATION@@ C13/ancillary-process-abort/invalid-chain/{name} the process died while AncillaryIter walked (and data() decoded) a control buffer whose first cmsg_len is {name}"
-    );
-    hostile_one(ctx, &bytes, &[], "invalid-chain", name, opts);
 }
 
 pub fn replay(ctx: &mut Ctx, p: &Value) {
